@@ -2,8 +2,9 @@
 (* C10 / C11: the schema-language machine run on every document of a       *)
 (* scenario file (TRACE_FILE), one SAX event per step.                     *)
 (*   docs   resource id -> document tree                                   *)
-(*   mains  sequence of [rid, exp]: the documents to build; exp = also     *)
-(*          build the written-out expansion and compare (C11)              *)
+(*   mains  sequence of [rid, exp, fault]: the documents to build; exp =   *)
+(*          also build the written-out expansion and compare (C11); fault  *)
+(*          = [rid, n] the n-th read of that resource raises (C19)         *)
 (*   tables keynorm lower attrof ident reserved rel dtcanon pfxabs pfxrel  *)
 (*          strip dirpart split refs pkgs (environment, see ZSchemaLang)   *)
 EXTENDS ZSchemaExpand, IOUtils, Json
@@ -34,24 +35,26 @@ MCDocOf(rid)       == TFile.docs[rid]
 
 Main == TFile.mains[d]
 
-Init == \E i \in 1..N : d = i /\ st = Start(TFile.mains[i].rid)
+Init == \E i \in 1..N : d = i /\ st = StartF(TFile.mains[i].rid, TFile.mains[i].fault)
 
 Kind == StepKind(st)
 Advance == /\ Running(st) /\ st' = Step(st) /\ UNCHANGED d
-StartElement   == Advance /\ Head(F(st).evs).e = "S" /\ ~F(st).pend.on /\ F(st).evs # <<>>
+ReadResource   == Advance /\ Kind = "ReadResource"
 Characters     == Advance /\ Kind = "Characters"
 EndElement     == Advance /\ Kind = "End"
 ResumeStartTag == Advance /\ Kind = "Resume"
 EndOfResource  == Advance /\ Kind = "EndOfResource"
-Next == \/ (Running(st) /\ Kind \notin {"Characters", "End", "Resume", "EndOfResource"} /\ st' = Step(st) /\ UNCHANGED d)
-        \/ Characters \/ EndElement \/ ResumeStartTag \/ EndOfResource
+StartElement   == Running(st) /\ Kind \notin {"ReadResource", "Characters", "End", "Resume", "EndOfResource"}
+                  /\ st' = Step(st) /\ UNCHANGED d
+Next == ReadResource \/ StartElement \/ Characters \/ EndElement \/ ResumeStartTag \/ EndOfResource
 Spec == Init /\ [][Next]_vars
 
 Done == ~Running(st)
 Accepted == st.done /\ st.err = ""
 
 (* C10: the machine accepts exactly the rule-abiding documents             *)
-AcceptIffWellFormed == Done => (Accepted <=> WellFormed(Main.rid))
+AcceptIffWellFormed == Done => IF Main.fault.n = 0 THEN Accepted <=> WellFormed(Main.rid)
+                                       ELSE Accepted => WellFormed(Main.rid)
 
 (* C11: where the expansion is defined it is rule-abiding exactly when the *)
 (* composed document is, and builds the same schema                        *)
@@ -65,7 +68,10 @@ ExpansionSameSchema ==
 StacksBalanced == st.done => /\ Len(st.fr) = 1 /\ F(st).elems = <<>> /\ F(st).ost = <<>> /\ F(st).pfx = <<>>
                              /\ Len(st.schs) = 1
 
-Emit == Done => PrintT(ToJson([d |-> d, ok |-> Accepted, any |-> st.any, why |-> st.err,
+(* C19: resources opened while a schema is loaded are closed innermost first, however the load ends *)
+ResourcesNested == Done => Nested(ResourceEvents(st), <<>>)
+
+Emit == Done => PrintT(ToJson([d |-> d, ok |-> Accepted, any |-> st.any, why |-> st.err, ev |-> ResourceEvents(st),
                                dig |-> IF Accepted THEN Digest(st.schs[1]) ELSE <<>>,
                                exp |-> IF Done /\ WantTwin THEN <<ExpandDoc(Main.rid)>> ELSE <<>>]))
 =========================================================================
